@@ -583,7 +583,7 @@ func writesOutput(h *ssa.BasicBlock, body map[*ssa.BasicBlock]bool) bool {
 
 func ruleEBoundsLoop(p *Program, r *Reporter) {
 	nonEmpty := variadicHelpersRejectEmpty(p)
-	for _, fn := range p.ReachFuncs(p.Eval) {
+	for _, fn := range p.ReachFuncs(p.Eval, p.Root) {
 		name := p.FuncName(fn)
 		loops := loopsOf(fn)
 		var headers []*ssa.BasicBlock
@@ -613,6 +613,8 @@ func ruleEBoundsLoop(p *Program, r *Reporter) {
 			switch {
 			case okAny:
 				r.OK(blockPos(h), key, whys[0])
+			case walksErrorChain(h, body):
+				r.OK(blockPos(h), key, "every round replaces the error being looked at by what errors.Unwrap gives for that same error: bounded by the length of the chain")
 			case descendsSyntaxTree(h, body):
 				r.OK(blockPos(h), key, "every round replaces the node being looked at by one of its own children (and leaves by return or break otherwise): bounded by the depth of the expression")
 			case writesOutput(h, body):
@@ -624,6 +626,35 @@ func ruleEBoundsLoop(p *Program, r *Reporter) {
 			}
 		}
 	}
+}
+
+// walksErrorChain: the loop header merges an error variable, and every value it receives over a back edge is
+// errors.Unwrap of that same variable.
+func walksErrorChain(h *ssa.BasicBlock, body map[*ssa.BasicBlock]bool) bool {
+	for _, in := range h.Instrs {
+		ph, ok := in.(*ssa.Phi)
+		if !ok {
+			break
+		}
+		if !isErrorType(ph.Type()) {
+			continue
+		}
+		back, good := 0, true
+		for i, e := range ph.Edges {
+			if !body[h.Preds[i]] {
+				continue
+			}
+			back++
+			c, ok := e.(*ssa.Call)
+			if !ok || calleeFullName(&c.Call) != "errors.Unwrap" || len(c.Call.Args) != 1 || c.Call.Args[0] != ssa.Value(ph) {
+				good = false
+			}
+		}
+		if back > 0 && good {
+			return true
+		}
+	}
+	return false
 }
 
 // descendsSyntaxTree: the loop header merges a parser.Node variable, and every value it receives over a back edge is a
